@@ -89,6 +89,33 @@ def failure_family(a, b):
     return out
 
 
+def redelivery_family(a, b):
+    """round 8: a delivery inside tenant <a> whose acknowledgement is withheld is sent again (and, for QoS 2, released) when its deadline
+    passes: what is sent again carries exactly the name the publisher used, like the first transmission - long names, and names shorter
+    than the mount point.  A watcher of tenant <b> and one of the default tenant see nothing of it."""
+    out = []
+    for q in (1, 2):
+        for t in (["plant", "line-4", "temp"], ["x"], [a.split("/")[0]], ["", "y"]):
+            tag = "rd%d-%s" % (q, "_".join(t))
+            ops = [{"op": "connect", "c": 1, "n": 1, "client": "slow", "user": "tenant:" + a, "ka": 60000, "auto": "none"},
+                   {"op": "sub", "c": 1, "id": 1, "fs": [{"f": ["#"], "q": q}]},
+                   {"op": "connect", "c": 6, "n": 1, "client": "watch-b", "user": "tenant:" + b, "ka": 60000},
+                   {"op": "sub", "c": 6, "id": 1, "fs": [{"f": ["#"], "q": 1}]},
+                   {"op": "connect", "c": 5, "n": 1, "client": "watch-d", "user": "", "ka": 60000},
+                   {"op": "sub", "c": 5, "id": 1, "fs": [{"f": ["#"], "q": 1}]},
+                   {"op": "connect", "c": 9, "n": 1, "client": "pub", "user": "tenant:" + a, "ka": 60000},
+                   {"op": "pub", "c": 9, "t": t, "p": tag, "q": 1, "r": False, "id": 1},
+                   {"op": "sweep", "n": 1, "ms": 3300}, {"op": "sweep", "n": 1, "ms": 6600}]
+            if q == 1:
+                ops += [{"op": "ackmsg", "c": 1, "p": tag, "kind": "PUBACK"}]
+            else:
+                ops += [{"op": "ackmsg", "c": 1, "p": tag, "kind": "PUBREC"}, {"op": "sweep", "n": 1, "ms": 9900},
+                        {"op": "ackmsg", "c": 1, "p": tag, "kind": "PUBCOMP"}]
+            ops += [{"op": "sweep", "n": 1, "ms": 13200}, {"op": "quiesce"}]
+            out.append({"nodes": [1], "ops": ops})
+    return out
+
+
 def check(run):
     thorough = run.tier == "thorough"
     run.model_check("MC_Session", "MC_Session_takeover.cfg")
@@ -117,6 +144,7 @@ def check(run):
             scns.append(sessionlib.build(h, c))
     ff = failure_family("A", "B") + failure_family("org/north", "org/south") + failure_family("A", "org/south")
     scns += ff
+    scns += redelivery_family("A", "B") + redelivery_family("org/north", "org/south")
     run.log("%d tenant scripts (%d with the failure of a node hosting wills named like the other tenant)" % (len(scns), len(ff)))
     tpath, crashes = brokerlib.execute(run, scns, "c17", shards=14, timeout=3000)
     if crashes:
